@@ -175,7 +175,7 @@ def run(tier, seed):
         for lay in (1, 2, 3, 4):
             for (m, d) in LAYCOMBOS:
                 jobs.append({'id': 'h%d_%d_%d_L%d' % (fn, m, d, lay), 'harness': 'vh_hash', 'args': [fn, m, d, lay], 'summaries': SUMM, 'probes': [PROBE]})
-        for mode in (0, 1):
+        for mode in (0, 1, 2):
             for (m, d) in TWICE:
                 jobs.append({'id': 'tw%d_%d_%d_%d' % (fn, m, d, mode), 'harness': 'vh_hash_twice', 'args': [fn, m, d, mode], 'summaries': SUMM, 'probes': [PROBE]})
         for isnil in (0, 1):
@@ -202,7 +202,7 @@ def run(tier, seed):
             for (m, d) in LAYCOMBOS:
                 check_one(ck, R_['h%d_%d_%d_L%d' % (fn, m, d, lay)], fn, m, d, failures, lay)
     for fn in (0, 1):
-        for mode in (0, 1):
+        for mode in (0, 1, 2):
             for (m, d) in TWICE:
                 check_one(ck, R_['tw%d_%d_%d_%d' % (fn, m, d, mode)], fn, m, d, failures, lay=0, label='second-call%d' % mode)
     for fn in (0, 1):
@@ -233,6 +233,9 @@ def battery(ck, failures, combos):
     cases = fallback.cases_for('C08', ck.seed)
     path = ck.save_replay({'property': ck.pid, 'cases': cases, 'failed': failures[:10]})
     ok, out = core.go_test(path)
+    if ok:
+        path = ck.save_replay({'property': ck.pid, 'cases': fallback.first_oversize('C08', ck.seed) + cases, 'failed': failures[:10], 'note': 'fresh process whose first hashing call uses an oversize DST'})
+        ok, out = core.go_test(path)
     if not ok and 'MISMATCH' in out:
         ck.violation('h2c', 'hash-to-curve deviates from RFC 9380 (%s): %s' % (failures[0], [l.strip() for l in out.splitlines() if 'MISMATCH' in l][:1]), path)
     else:
